@@ -361,3 +361,9 @@ S('A_S_copy_via_local', ['C04', 'C16', 'C01'], 'bits.py', "        s = self._cop
 S('POSW_S_chained_guard', ['C06', 'C20'], 'bitstream.py', "        if pos < 0 or pos > len(self._bitstore):\n            raise bitstring.CreationError", "        if not 0 <= pos <= len(self._bitstore):\n            raise bitstring.CreationError")
 S('N_S_ternary_to_if', ['C20', 'C19'], 'bits.py', "        trailing_bit_length = len(self) % bits_per_group if has_length_in_fmt and bits_per_group else 0", "        trailing_bit_length = 0\n        if has_length_in_fmt and bits_per_group:\n            trailing_bit_length = len(self) % bits_per_group")
 S('H_S_table_as_dict_call', ['C18'], 'utils.py', "PACK_CODE_SIZE: Dict[str, int] = {'b': 1, 'B': 1, 'h': 2, 'H': 2, 'l': 4, 'L': 4, 'i': 4, 'I': 4,\n                                  'q': 8, 'Q': 8, 'e': 2, 'f': 4, 'd': 8}", "PACK_CODE_SIZE: Dict[str, int] = {'q': 8, 'Q': 8, 'e': 2, 'f': 4, 'd': 8, 'b': 1, 'B': 1, 'h': 2, 'H': 2, 'l': 4, 'L': 4,\n                                  'i': 4, 'I': 4}")
+S('PKG_S_rename_addleft', ALL, '*', pkg_fn=pkg_rename('_addleft', '_extend_left'))
+S('PKG_S_rename_absolute_slice', ALL, '*', pkg_fn=pkg_rename('_absolute_slice', '_msb0_slice'))
+S('PKG_S_rename_truncateleft', ALL, '*', pkg_fn=pkg_rename('_truncateleft', '_chop_left'))
+S('PKG_S_rename_repr_helper', ALL, '*', pkg_fn=pkg_rename('_repr', '_make_repr'))
+S('PKG_S_rename_setitem_helper', ALL, '*', pkg_fn=pkg_rename('_setitem_int', '_assign_bit'))
+S('PKG_S_rename_readue', ALL, '*', pkg_fn=pkg_rename('_readue', '_decode_ue'))
